@@ -35,6 +35,22 @@ func (e *Exec) evalCall(st *State, call *ast.CallExpr) []Term {
 				}
 			}
 		}
+		// `call f after assert[l] e`
+		if e.Fn.C != nil {
+			for _, ca := range e.Fn.C.Calls {
+				if ca.Callee != name || !ca.After {
+					continue
+				}
+				e.callAsserted[ca] = true
+				t := e.evalSpec(st, ca.Clause)
+				if ca.Assume {
+					e.Assumed["explicit assumption ["+ca.Clause.Label+"] after call "+name+": "+ca.Clause.Src] = true
+					e.assume(st, t)
+					continue
+				}
+				e.Ctx.AddObligation(e.Fn.FullName(), "assert", fmt.Sprintf("%s/assert/%s", e.fnName(), ca.Clause.Label), st.PC, t, e.pos(call.Pos()))
+			}
+		}
 	}
 	return res
 }
@@ -49,7 +65,7 @@ func (e *Exec) callSiteAsserts(st *State, call *ast.CallExpr, name string, recv 
 	e.fr().callSeen["@"+name]++
 	ord := e.fr().callSeen["@"+name]
 	for _, ca := range e.Fn.C.Calls {
-		if ca.Callee != name || (ca.Ordinal != 0 && ca.Ordinal != ord) {
+		if ca.Callee != name || (ca.Ordinal != 0 && ca.Ordinal != ord) || ca.After {
 			continue
 		}
 		e.callAsserted[ca] = true
